@@ -445,7 +445,15 @@ pub fn group_model(g: &WmoGroup) -> Model {
     ]
 }
 
-pub fn new_group_model(g: &NewGroup) -> Model {
+/// `deep`: also render the liquid type (thorough tier; `MliqHeader::liquid_type` is the one liquid
+/// field with a counterpart of the same name and meaning in the writer's input type).
+pub fn new_group_model(g: &NewGroup, deep: bool) -> Model {
+    let mut liquid: Rec = vec![("present", g.liquid_header.is_some().to_string())];
+    if deep {
+        if let Some(h) = &g.liquid_header {
+            liquid.push(("liquid_type", h.liquid_type.to_string()));
+        }
+    }
     let bbx = if g.bounding_box.len() == 6 {
         format!("{}..{}", fa(&g.bounding_box[0..3]), fa(&g.bounding_box[3..6]))
     } else {
@@ -497,6 +505,6 @@ pub fn new_group_model(g: &NewGroup) -> Model {
                 .collect(),
         },
         Section { name: "doodad_refs", recs: g.doodad_refs.iter().map(|r| vec![("ref", r.to_string())]).collect() },
-        Section { name: "liquid", recs: vec![vec![("present", g.liquid_header.is_some().to_string())]] },
+        Section { name: "liquid", recs: vec![liquid] },
     ]
 }
